@@ -403,6 +403,11 @@ class Report:
             self.cov['samples'].append(s)
 
     def violation(self, entry_point, klass, inp, detail, expected=None, observed=None):
+        # a request that ran out of time is not evidence about any property except the parsers' totality (C07, C08): elsewhere it is
+        # recorded in the evidence notes as inconclusive, never reported as a violation (a loaded machine must not raise alarms)
+        if klass in ('crash', 'oob') and self.prop not in ('C07', 'C08') and str(detail).startswith('timeout after'):
+            self.notes['inconclusive_timeouts'] = self.notes.get('inconclusive_timeouts', 0) + 1
+            return
         self.violations.append({'entry_point': entry_point, 'class': klass, 'input': inp, 'detail': detail,
                                 'expected_by_spec': expected, 'observed': observed})
 
